@@ -1,56 +1,41 @@
-use std::ops::Index;
-
-use regex::Captures;
-use regex::Regex;
-
-use crate::util::error_exit;
-
 pub fn is_glob(s: &str) -> bool {
     s.contains("*") || s.contains('?')
 }
 
+/// Converts a glob pattern to a regular expression: `*` matches any run of characters,
+/// `?` exactly one, every other character only itself. The match is case-insensitive
+/// and covers the whole string.
 pub fn convert_glob_to_pattern(s: &str) -> String {
-    let string = s.to_string();
-    let regex = Regex::new("(\\?|\\.|\\*|\\[|\\]|\\(|\\)|\\^|\\$)").unwrap();
-    let string = regex.replace_all(&string, |c: &Captures| {
-        match c.index(0) {
-            "." => "\\.",
-            "*" => ".*",
-            "?" => ".",
-            "[" => "\\[",
-            "]" => "\\]",
-            "(" => "\\(",
-            ")" => "\\)",
-            "^" => "\\^",
-            "$" => "\\$",
-            _ => error_exit("Error parsing glob expression", s),
-        }
-        .to_string()
-    });
+    let mut pattern = String::from("^(?is)");
 
-    format!("^(?i){}$", string)
+    for c in s.chars() {
+        match c {
+            '*' => pattern.push_str(".*"),
+            '?' => pattern.push('.'),
+            _ => pattern.push_str(&regex::escape(c.encode_utf8(&mut [0; 4]))),
+        }
+    }
+
+    pattern.push('$');
+
+    pattern
 }
 
+/// Converts a LIKE pattern to a regular expression: `%` matches any run of characters,
+/// `_` exactly one, every other character only itself. The match is case-insensitive
+/// and covers the whole string.
 pub fn convert_like_to_pattern(s: &str) -> String {
-    let string = s.to_string();
-    let regex = Regex::new("(%|_|\\?|\\.|\\*|\\[|\\]|\\(|\\)|\\^|\\$)").unwrap();
-    let string = regex.replace_all(&string, |c: &Captures| {
-        match c.index(0) {
-            "%" => ".*",
-            "_" => ".",
-            "?" => ".?",
-            "." => "\\.",
-            "*" => "\\*",
-            "[" => "\\[",
-            "]" => "\\]",
-            "(" => "\\(",
-            ")" => "\\)",
-            "^" => "\\^",
-            "$" => "\\$",
-            _ => error_exit("Error parsing LIKE expression", s),
-        }
-        .to_string()
-    });
+    let mut pattern = String::from("^(?is)");
 
-    format!("^(?i){}$", string)
+    for c in s.chars() {
+        match c {
+            '%' => pattern.push_str(".*"),
+            '_' => pattern.push('.'),
+            _ => pattern.push_str(&regex::escape(c.encode_utf8(&mut [0; 4]))),
+        }
+    }
+
+    pattern.push('$');
+
+    pattern
 }
